@@ -145,10 +145,24 @@ def register(R):
             'three_distinct_executors': B(len({c.newf('_request_executor').oid, c.newf('_submission_executor').oid, c.newf('_io_executor').oid}) == 3),
             'one_shared_leaky_bucket_iff_bandwidth_limited': (z3.If(
                 is_none(g('max_bandwidth')), B(c.newf('_bandwidth_limiter') is None), B(isinstance(c.newf('_bandwidth_limiter'), Ref))), ['C13', 'C10']),
+            # C09: botocore reads (and rewinds) an upload body while it prepares the request; those reads are not
+            # transfer progress: reporting is switched off first and switched on last around 'request-created'
+            'upload_progress_reporting_is_bracketed_around_request_creation': (B(_handlers_ok(c)), ['C09']),
         }
 
+    def _handlers_ok(c):
+        from pyvc.values import FuncRef
+        ev = [e for e in c.trace if e.kind == 'ext' and e.name in ('event_emitter.register_first', 'event_emitter.register_last')]
+        if len(ev) != 2:
+            return False
+        first = [e for e in ev if e.name.endswith('register_first')]
+        last = [e for e in ev if e.name.endswith('register_last')]
+        return len(first) == 1 and len(last) == 1 and first[0].args[0] == 'request-created.s3' and last[0].args[0] == 'request-created.s3' \
+            and isinstance(first[0].args[1], FuncRef) and first[0].args[1].finfo.name == 'signal_not_transferring' \
+            and isinstance(last[0].args[1], FuncRef) and last[0].args[1].finfo.name == 'signal_transferring'
+
     R.contract(
-        f'{TM}.__init__', props=['C10', 'C11', 'C13'],
+        f'{TM}.__init__', props=['C10', 'C11', 'C13', 'C09'],
         params=dict(client=ExtT('client'), config=ObjT(CFG), osutil=Const(None), executor_cls=Const(None)),
         self_type=ObjT(TM, _client=Const(None), _config=Const(None), _osutil=Const(None), _coordinator_controller=Const(None),
                        _id_counter=Const(None), _request_executor=Const(None), _submission_executor=Const(None),
@@ -156,6 +170,7 @@ def register(R):
         inline_callees=[f'{SWS}.__init__'],
         checks=wiring_checks,
     )
+    R.contracts[f'{TM}.__init__'].real_arithmetic = True   # float(max_bandwidth): A-REAL (C13)
 
     # config values are all positive
     def cfg_checks(c):
